@@ -153,7 +153,7 @@ def run(ck: Check):
                "distinct = distinct graph; non-trivial = rooted with at least 3 nodes (only rooted graphs are judged by the oracle)")
     tasks = [{"kind": "list", "graphs": corpus_graphs(), "module": MODULE}]
     tasks += exhaustive_tasks(4 if ck.quick else 5, 16 if ck.quick else 256)
-    nrand = 960 if ck.quick else 40000
+    nrand = 960 if ck.quick else 16000
     per = nrand // 32
     tasks += [{"kind": "random", "seed": "C18/%d/%d" % (ck.seed, i), "count": per, "max_n": 300, "module": MODULE}
               for i in range(32)]
